@@ -51,6 +51,35 @@ Proof.
 Qed.
 Print Assumptions C14_published_names_agree.
 
+(* element by element, for every tag (the tags recorded above included; only the four elements whose own
+   name is spelled differently are excepted, they belong to the same recorded finding): a server element and the client
+   model's element held in the same Go field path carry the same JSON path, so a value encoded by one side
+   lands in the same element on the other side; exchanging two names inside a tag keeps the set of names
+   and is caught here *)
+Definition recorded_element_disagreements : list (string * string) :=
+  [("previousMessageIdentifier", "PreviousMessageIdentifier"); ("localInstrument", "LocalInstrumentCode");
+   ("fiPaymentMethodToBeneficiary", "AdditionalInformation"); ("relatedRemittance", "RemittanceLocationElectronicAddress")]%string.
+
+Definition ob_names_elementwise : bool :=
+  client_models_read && forallb (elementwise_agree recorded_element_disagreements client_fields) (map fst server_fields).
+
+Theorem C14_same_field_same_name : forall tag selems celems gopath js jc,
+  In (tag, selems) server_fields -> NoDup (map fst server_fields) ->
+  In (tag, celems) client_fields -> NoDup (map fst client_fields) ->
+  In (gopath, js) selems -> In (gopath, jc) celems -> NoDup (map fst celems) ->
+  ~ In (tag, gopath) recorded_element_disagreements ->
+  js = jc.
+Proof.
+  assert (H : ob_names_elementwise = true) by (vm_compute; reflexivity).
+  unfold ob_names_elementwise in H. apply andb_true_iff in H as [_ H]. exact (elementwise_sound recorded_element_disagreements client_fields H).
+Qed.
+Print Assumptions C14_same_field_same_name.
+
+Example elementwise_not_vacuous :
+  nodup_strings (map fst server_fields) = true /\ nodup_strings (map fst client_fields) = true /\
+  forallb (fun ce => nodup_strings (map fst (snd ce))) client_fields = true /\ shared_fields client_fields = 180.
+Proof. vm_compute. repeat split; reflexivity. Qed.
+
 (* 60 elements, 29 of them outside the list: the statement is not vacuous *)
 Example names_checked : length (map fst server_paths) = 60 /\ length recorded_disagreements = 31.
 Proof. vm_compute. split; reflexivity. Qed.
